@@ -176,11 +176,31 @@ class LinearChecker(DagWalker):
             numerator_negative_fluents | denominator_negative_fluents
         )
         positivity = True
-        for a in expression.args:
-            if (a.is_int_constant() or a.is_real_constant()) and a.constant_value() < 0:
+        positivity_unknown = False
+        tc = self._env.type_checker
+        for a, (_, spf, snf) in zip(expression.args, args):
+            if len(spf) > 0 or len(snf) > 0:
+                # the sign of the fluent-dependent numerator is tracked by its fluent sets
+                continue
+            if a.is_int_constant() or a.is_real_constant():
+                if a.constant_value() < 0:
+                    positivity = not positivity
+                continue
+            # a fluent-free operand that is not a constant (e.g. a parameter): its sign can
+            # only be known from the bounds of its type, as in walk_times
+            t = tc.get_type(a)
+            assert isinstance(t, _IntType) or isinstance(t, _RealType)
+            if t.lower_bound is not None and t.lower_bound > 0:
+                pass
+            elif t.upper_bound is not None and t.upper_bound < 0:
                 positivity = not positivity
+            else:
+                positivity_unknown = True
 
-        if positivity:
+        if positivity_unknown:
+            fluents = positive_fluents | negative_fluents
+            return (is_linear, fluents, fluents)
+        elif positivity:
             return (is_linear, positive_fluents, negative_fluents)
         else:
             return (is_linear, negative_fluents, positive_fluents)
